@@ -202,6 +202,9 @@ func (p *ProtocolCartesian[X0, X1, W0, W1, A0, A1, S0, S1, Z0, Z1]) ComputeProve
 //
 // Both branch transcripts are verified using the same challenge.
 func (p *ProtocolCartesian[X0, X1, W0, W1, A0, A1, S0, S1, Z0, Z1]) Verify(statement *StatementCartesian[X0, X1], commitment *CommitmentCartesian[A0, A1], challengeBytes sigma.ChallengeBytes, response *ResponseCartesian[Z0, Z1]) error {
+	if statement == nil || commitment == nil || response == nil {
+		return ErrIsNil.WithMessage("statement/commitment/response is nil")
+	}
 	if err := p.sigma0.Verify(statement.X0, commitment.A0, challengeBytes[:p.sigma0.GetChallengeBytesLength()], response.Z0); err != nil {
 		return errs.Wrap(err).WithMessage("verification failed")
 	}
